@@ -9,16 +9,16 @@ open YaraModel.Re YaraModel.ReVm
 
 def Keps : Lang := fun q q' => q = q'
 
-theorem start_not_match (e : Env) (h : FwdByte e) {r : Ir} {n : Nat} (hs : Seg e.code r 0 n) {f : Fiber} {m : Mode}
+theorem start_not_match (e : Env) (D : Dir e) {r : Ir} {n : Nat} (hs : Seg e.code r 0 n) {f : Fiber} {m : Mode}
     (hst : ValidF r 0 0 f m) : u8 e.code f.ip ≠ OP_MATCH := by
-  obtain ⟨_, _, _, e4, _⟩ := seg_step e h hs 0 Keps f m hst
+  obtain ⟨_, _, _, e4, _⟩ := seg_step e D hs 0 Keps f m hst
   exact e4
 
 /-- one call of sync keeps the invariant -/
-theorem sstar_lang (e : Env) (h : FwdByte e) {r : Ir} {n : Nat} (hs : Seg e.code r 0 n) (hmatch : u8 e.code n = OP_MATCH)
+theorem sstar_lang (e : Env) (D : Dir e) {r : Ir} {n : Nat} (hs : Seg e.code r 0 n) (hmatch : u8 e.code n = OP_MATCH)
     {f g : Fiber} {m' : Mode} (hss : SStar e.code f g m') : ∀ (m : Mode), m ≠ .wait → (ValidF r 0 0 f m ∨ AtEnd n 0 f m) →
     (ValidF r 0 0 g m' ∨ AtEnd n 0 g m') ∧
-      ∀ q q', langF e r 0 0 Keps g m' q q' → langF e r 0 0 Keps f m q q' := by
+      ∀ q q', langF D.L r 0 0 Keps g m' q q' → langF D.L r 0 0 Keps f m q q' := by
   induction hss with
   | @refl f hn =>
     intro m _ hv
@@ -31,7 +31,7 @@ theorem sstar_lang (e : Env) (h : FwdByte e) {r : Ir} {n : Nat} (hs : Seg e.code
   | @eps f g1 h1 m1 hstep _ ih =>
     intro m hmw hv
     rcases hv with hv | hv
-    · obtain ⟨e1, _, _, _, _⟩ := seg_step e h hs 0 Keps f m hv
+    · obtain ⟨e1, _, _, _, _⟩ := seg_step e D hs 0 Keps f m hv
       obtain ⟨g1v, _, g1l⟩ := e1 g1 hstep hmw
       obtain ⟨r1, r2⟩ := ih .run (by simp) g1v
       exact ⟨r1, fun q q' hq => g1l q q' (r2 q q' hq)⟩
@@ -39,7 +39,7 @@ theorem sstar_lang (e : Env) (h : FwdByte e) {r : Ir} {n : Nat} (hs : Seg e.code
   | @cont f g1 h1 m1 hstep _ ih =>
     intro m hmw hv
     rcases hv with hv | hv
-    · obtain ⟨_, e2, _, _, _⟩ := seg_step e h hs 0 Keps f m hv
+    · obtain ⟨_, e2, _, _, _⟩ := seg_step e D hs 0 Keps f m hv
       obtain ⟨g1v, _, g1l⟩ := e2 g1 false hstep hmw
       obtain ⟨r1, r2⟩ := ih .run (by simp) (by simpa [modeAfter] using g1v)
       refine ⟨r1, fun q q' hq => g1l q q' ?_⟩
@@ -48,73 +48,62 @@ theorem sstar_lang (e : Env) (h : FwdByte e) {r : Ir} {n : Nat} (hs : Seg e.code
   | @spin f g1 hstep =>
     intro m hmw hv
     rcases hv with hv | hv
-    · obtain ⟨_, e2, _, _, _⟩ := seg_step e h hs 0 Keps f m hv
+    · obtain ⟨_, e2, _, _, _⟩ := seg_step e D hs 0 Keps f m hv
       obtain ⟨g1v, _, g1l⟩ := e2 g1 true hstep hmw
       exact ⟨by simpa [modeAfter] using g1v, fun q q' hq => g1l q q' (by simpa [modeAfter] using hq)⟩
     · exact absurd hstep (fun hh => no_astep hh (match_not_any (by rw [hv.1]; exact hmatch)))
 
 /-- invariant of the abstract machine on a whole program: whatever can still be accepted from a reachable state extends
     to a match of the expression from the start position of the run (in scan mode: from SOME start position `s0`) -/
-theorem reach_lang (e : Env) (h : FwdByte e) {r : Ir} {n : Nat} (hs : Seg e.code r 0 n) (hmatch : u8 e.code n = OP_MATCH)
+theorem reach_lang (e : Env) (D : Dir e) {r : Ir} {n : Nat} (hs : Seg e.code r 0 n) (hmatch : u8 e.code n = OP_MATCH)
     (hentry : e.entry = 0) {f : Fiber} {m : Mode} {bm : Nat} (hr : Reach e f m bm) :
-    (ValidF r 0 0 f m ∨ AtEnd n 0 f m) ∧ e.start + bm ≤ e.buf.size ∧
-      ∃ s0, e.start ≤ s0 ∧ s0 ≤ e.start + bm ∧ (e.fl.scan = false → s0 = e.start) ∧
-        ∀ q', langF e r 0 0 Keps f m (e.start + bm) q' →
-          lang (specFlags e.fl) e.buf r 0 0 Keps 0 (-1) [] .run s0 q' := by
+    (ValidF r 0 0 f m ∨ AtEnd n 0 f m) ∧ D.ok bm ∧
+      ∃ s0, s0 ≤ bm ∧ (e.fl.scan = false → s0 = 0) ∧
+        ∀ q', langF D.L r 0 0 Keps f m bm q' →
+          lang D.L r 0 0 Keps 0 (-1) [] .run s0 q' := by
   have hstart : ValidF r 0 0 { ip := 0 } .run ∨ AtEnd n 0 { ip := 0 } .run := entry_state hs 0 { ip := 0 } rfl rfl rfl
   induction hr with
   | start =>
     simp only [hentry]
-    exact ⟨hstart, h.startIn, e.start, Nat.le_refl _, by omega, fun _ => rfl, fun q' hq => by simpa using hq⟩
+    exact ⟨hstart, D.ok0, 0, Nat.le_refl _, fun _ => rfl, fun q' hq => hq⟩
   | scanStart bm hsc hbm =>
     simp only [hentry]
-    have := maxBytes_le h
-    exact ⟨hstart, by omega, e.start + bm, by omega, Nat.le_refl _, fun hh => by rw [hsc] at hh; simp at hh,
-      fun q' hq => hq⟩
+    exact ⟨hstart, D.okScan hsc hbm, bm, Nat.le_refl _, fun hh => by rw [hsc] at hh; simp at hh, fun q' hq => hq⟩
   | @sync f g m m' bm _ hmw hss ih =>
-    obtain ⟨hpos, hb, s0, h1, h2, h3, hl⟩ := ih
-    obtain ⟨r1, r2⟩ := sstar_lang e h hs hmatch hss m hmw hpos
-    exact ⟨r1, hb, s0, h1, h2, h3, fun q' hq => hl q' (r2 _ q' hq)⟩
+    obtain ⟨hpos, hb, s0, h1, h3, hl⟩ := ih
+    obtain ⟨r1, r2⟩ := sstar_lang e D hs hmatch hss m hmw hpos
+    exact ⟨r1, hb, s0, h1, h3, fun q' hq => hl q' (r2 _ q' hq)⟩
   | @zw f bm _ hnc hnm hz ih =>
-    obtain ⟨hpos, hb, s0, h1, h2, h3, hl⟩ := ih
+    obtain ⟨hpos, hb, s0, h1, h3, hl⟩ := ih
     rcases hpos with hst | hend
-    · obtain ⟨_, _, _, _, e5⟩ := seg_step e h hs 0 Keps f .run hst
+    · obtain ⟨_, _, _, _, e5⟩ := seg_step e D hs 0 Keps f .run hst
       obtain ⟨g1, g2⟩ := e5 bm hb hnc hz
-      exact ⟨g1, hb, s0, h1, h2, h3, fun q' hq => hl q' (g2 q' hq)⟩
+      exact ⟨g1, hb, s0, h1, h3, fun q' hq => hl q' (g2 q' hq)⟩
     · exact absurd (by rw [hend.1]; exact hmatch) hnm
   | @cons f m bm _ hc hok hany hnp ih =>
-    obtain ⟨hpos, hb, s0, h1, h2, h3, hl⟩ := ih
-    have hb' : e.start + (bm + e.cs) ≤ e.buf.size := by
-      have := consume_in_buf h hok
-      rw [cs_one h]; omega
+    obtain ⟨hpos, hb, s0, h1, h3, hl⟩ := ih
     rcases hpos with hst | hend
-    · obtain ⟨_, _, e3, _, _⟩ := seg_step e h hs 0 Keps f m hst
+    · obtain ⟨_, _, e3, _, _⟩ := seg_step e D hs 0 Keps f m hst
       obtain ⟨g1, g2⟩ := e3 bm hc hok hany hnp
-      refine ⟨g1, hb', s0, h1, by omega, h3, ?_⟩
-      intro q' hq
-      apply hl q'
-      apply g2 q'
-      rw [cs_one h] at hq
-      rwa [← Nat.add_assoc] at hq
+      exact ⟨g1, D.okCons hb hok, s0, by omega, h3, fun q' hq => hl q' (g2 q' hq)⟩
     · exfalso
       rw [hend.1, hmatch] at hc
       simp [isConsuming, OP_MATCH, OP_ANY, OP_REPEAT_ANY_GREEDY, OP_REPEAT_ANY_UNGREEDY, OP_LITERAL, OP_NOT_LITERAL, OP_MASKED_LITERAL,
         OP_MASKED_NOT_LITERAL, OP_CLASS, OP_WORD_CHAR, OP_NON_WORD_CHAR, OP_SPACE, OP_NON_SPACE, OP_DIGIT, OP_NON_DIGIT] at hc
 
-/-- a reachable fiber at RE_OPCODE_MATCH after `L` bytes: the expression matches `[s0, start+L)` for a start position `s0`
-    of the run (`s0 = start` unless the run is in scan mode) -/
-theorem match_sound (e : Env) (h : FwdByte e) {r : Ir} {n : Nat} (hs : Seg e.code r 0 n) (hmatch : u8 e.code n = OP_MATCH)
+/-- a reachable fiber at RE_OPCODE_MATCH after `L` matched bytes: the shape matches from `s0` to `L` matched bytes, for a
+    start `s0` of the run (`s0 = 0` unless the run is in scan mode) -/
+theorem match_sound (e : Env) (D : Dir e) {r : Ir} {n : Nat} (hs : Seg e.code r 0 n) (hmatch : u8 e.code n = OP_MATCH)
     (hentry : e.entry = 0) {f : Fiber} {m : Mode} {L : Nat} (hr : Reach e f m L) (hm : u8 e.code f.ip = OP_MATCH) :
-    ∃ s0, e.start ≤ s0 ∧ s0 ≤ e.start + L ∧ e.start + L ≤ e.buf.size ∧ (e.fl.scan = false → s0 = e.start) ∧
-      Re.Matches (specFlags e.fl) e.buf r.re s0 (e.start + L) := by
-  obtain ⟨hpos, hbd, s0, h1, h2, h3, hl⟩ := reach_lang e h hs hmatch hentry hr
+    ∃ s0, s0 ≤ L ∧ D.ok L ∧ (e.fl.scan = false → s0 = 0) ∧ IrM D.L r s0 L := by
+  obtain ⟨hpos, hbd, s0, h1, h3, hl⟩ := reach_lang e D hs hmatch hentry hr
   rcases hpos with hst | hend
-  · exact absurd hm (start_not_match e h hs hst)
-  · have hk : langF e r 0 0 Keps f m (e.start + L) (e.start + L) := by
-      simp only [langF]; rw [hend.1, lang_end _ _ hs]; rfl
-    obtain ⟨t, ht, hkt⟩ := lang_entry _ _ hs 0 Keps [] _ _ (hl _ hk)
+  · exact absurd hm (start_not_match e D hs hst)
+  · have hk : langF D.L r 0 0 Keps f m L L := by
+      simp only [langF]; rw [hend.1, lang_end _ hs]; rfl
+    obtain ⟨t, ht, hkt⟩ := lang_entry _ hs 0 Keps [] _ _ (hl _ hk)
     simp only [Keps] at hkt
     rw [hkt] at ht
-    exact ⟨s0, h1, h2, hbd, h3, ht⟩
+    exact ⟨s0, h1, hbd, h3, ht⟩
 
 end YaraModel.ReEmit
